@@ -104,9 +104,11 @@ claim('C12',
       'on the real output are decided by an oracle on the emitted text.',
       COMMON_NOTE, 'Coq proof (emitter decomposition lemmas) + oracle on real output', 'DESIGN.md §5 C12')
 claim('C13',
-      'Coq theorem: the type text stored per terminal is type_to_string of the declared type; all use sites print it. Re-tokenisation of every '
-      'type position of the real output against the declaration is done by the check.',
-      COMMON_NOTE, 'Coq proof + re-tokenisation oracle on real output', 'DESIGN.md §5 C13')
+      'Coq theorems: the type text stored per terminal is type_to_string of the declared type and all use sites print it; and the round trip '
+      '(Ast/TypeText.v): for every type expression of the Kiki type syntax, nested to any depth, re-tokenising type_to_string ty with a '
+      'maximal-munch lexer gives exactly the identifiers, `::`, `<`, `,`, `>`, `()` of ty in order (argument positions and nesting kept). '
+      'Re-tokenisation of every type position of the REAL output against the declaration\'s own tokens is done by the check.',
+      COMMON_NOTE, 'Coq proof (nested induction over type expressions; compositional lexing lemma) + re-tokenisation oracle on real output', 'DESIGN.md §5 C13')
 claim('C14',
       'Coq theorems: the result of the model of generate (Ok text or Err e, byte for byte) is the same under ANY two iteration orders of its two '
       'hash collections (the transition set, the action/goto maps): the automaton by order-independence of Oset::from_iter, the table because '
